@@ -181,25 +181,27 @@ public class Math {
 
 
     public static MultiRecord wordTimesDouble(Word w1, Word w2) {
-        int i1 = w1.toSInt();
-        int i2 = w2.toSInt();
-        long lprod = (long) i1 * (long) i2;
+        // Words are unsigned here: the product of two words is a double word.
+        long i1 = w1.toSInt() & 0xFFFFFFFFL;
+        long i2 = w2.toSInt() & 0xFFFFFFFFL;
+        long lprod = i1 * i2;
         MultiRecord pair = new MultiRecord(wordTimesFormat);
-        pair.setField(0, "hi", Value.U.fromSInt((int) (lprod >> 32)));
+        pair.setField(0, "hi", Value.U.fromSInt((int) (lprod >>> 32)));
         pair.setField(1, "lo", Value.U.fromSInt((int) (lprod & ((1L << 32) - 1))));
 
         return pair;
     }
 
     public static MultiRecord wordDivideDouble(Word w1, Word w2, Word w3) {
-        long h = (long) w1.toSInt();
-        long l = (long) w2.toSInt();
-        long d = (long) w3.toSInt();
-        long full = (h << 32) + l;
-        long lquo = full / d;
-        long rem = full % d;
+        // The three words are unsigned: the low word must not be sign-extended.
+        long h = w1.toSInt() & 0xFFFFFFFFL;
+        long l = w2.toSInt() & 0xFFFFFFFFL;
+        long d = w3.toSInt() & 0xFFFFFFFFL;
+        long full = (h << 32) | l;
+        long lquo = Long.divideUnsigned(full, d);
+        long rem = Long.remainderUnsigned(full, d);
         MultiRecord result = new MultiRecord(wordDivideFormat);
-        result.setField(0, "hi", Value.U.fromSInt((int) (lquo >> 32)));
+        result.setField(0, "hi", Value.U.fromSInt((int) (lquo >>> 32)));
         result.setField(1, "lo", Value.U.fromSInt((int) (lquo & ((1L << 32) - 1))));
         result.setField(2, "rem", Value.U.fromSInt((int) rem));
 
